@@ -413,6 +413,7 @@ impl Transaction {
         transaction_to_rebroadcast: &Transaction,
         slip1: Slip, // first Bound slip
         slip2: Slip, // Normal slip (amount already includes payout)
+        slip2_output: Slip, // ATR slip carrying the payout minus the rebroadcast fee
         slip3: Slip, // second Bound slip
     ) -> Transaction {
         let mut tx = Transaction::default();
@@ -443,11 +444,8 @@ impl Transaction {
         // same Bound slips, but payload has slip_type=ATR
         //
         tx.add_to_slip(slip1);
-        {
-            let mut output2 = slip2.clone();
-            output2.slip_type = SlipType::ATR;
-            tx.add_to_slip(output2);
-        }
+        assert_eq!(slip2_output.slip_type, SlipType::ATR);
+        tx.add_to_slip(slip2_output);
         tx.add_to_slip(slip3);
 
         tx.generate_total_fees(0, 0);
